@@ -1844,8 +1844,15 @@ fn build_source(run: &Run, sc: &Scratch, cfg: &SrcCfg) -> Result<Source, String>
 				let mut tip = w.hashes[(a - 1) as usize];
 				let mut first = None;
 				let mut ok = true;
-				for _ in 0..21 {
-					let gb = w.h.add_block(&tip, &[], "fork", vec![]);
+				// the fork's first block outweighs the chain's block at the archive height by one, the twenty others weigh 1:
+				// best chain at once, overtaken again once the chain is 22 blocks past the archive height
+				let d_main = {
+					let hd = &w.h.blocks[(a - 1) as usize].block.header;
+					let prev = if a >= 2 { w.h.blocks[(a - 2) as usize].block.header.total_difficulty().to_num() } else { w.h.genesis.header.total_difficulty().to_num() };
+					hd.total_difficulty().to_num().saturating_sub(prev)
+				};
+				for j in 0..21 {
+					let gb = vcommon::scenarios::mk_block(&mut w.h, &tip, &[], if j == 0 { d_main + 1 } else { 1 }, "fork");
 					if gb.verdict.is_err() || chain.process_block(gb.block.clone(), OPTS).is_err() {
 						ok = false;
 						break;
